@@ -46,7 +46,7 @@ REGISTRY = dict(
          "output classification), `erg --mode parse` as the arbiter of syntactic validity outside the operator "
          "sub-fragment, the C11 models (ExprParse) for the round-trip theorem. The stack model is tied to erg only by "
          "comparing its maximal stack depth with the depth of the emitted bytecode (CPython's dis.stack_effect) on "
-         "expression-fragment programs. Hang = 90 s of CPU time (RLIMIT_CPU, 3 x the property's 30 s), re-established alone, or no exit within 90 s x load. A stack "
+         "expression-fragment programs. Hang = 60 s of CPU time (RLIMIT_CPU, twice the property's 30 s), re-established alone, or no exit within 90 s x load. A stack "
          "overflow has no location: the check re-runs it under gdb and names the recursion cycle.",
     technique="Coq-proved input validity + reference checker; crash detection by differential execution",
     design="DESIGN.md §4 C07")
@@ -202,7 +202,7 @@ def run(ctx):
     ctx.assumptions = ["the theorems emit_total / compile_total are about the hand model NoCrash/Check.v of codegen.rs' stack "
                        "accounting, tied to erg only through the maximal stack depth of expression-fragment programs",
                        "no theorem covers erg's type checker: absence of crashes there is observed, not proved",
-                       "a hang is 90 s of CPU time (RLIMIT_CPU; three times the 30 s of the property text, to be robust on a loaded machine), "
+                       "a hang is 60 s of CPU time (RLIMIT_CPU; twice the 30 s of the property text, to be robust on a loaded machine), "
                        "re-established by running the command alone, or no exit within 90 s scaled by the 1-minute load per core"]
     # ---- translators
     try:
@@ -317,7 +317,7 @@ def run_with(ctx, proof, model, runner, sites, entries):
                       case=c.as_json(), no_input=True)
     ctx.log("%d programs passed the parser" % len(kept))
     # ---- run
-    results = runner.run_many([c.src for c in kept])
+    results = runner.run_many([c.src for c in kept], expected_hang={k for k, c in enumerate(kept) if c.kind == "known"})
     for c, r in zip(kept, results):
         c.res = r
     ctx.cov["commands_run"] = runner.commands
